@@ -194,7 +194,21 @@ def cli_case(ctx, k):
         sq = "".join(rng.choice("ACGTNn" if rng.random() < 0.3 else "ACGT") for _ in range(n))
         recs.append((f"r{i}", sq, "".join(chr(base + x) for x in q), q))
     mode = rng.choice(["ee", "aer", "n"])
+    boundary = None
+    if mode == "n" and rng.random() < 0.4:
+        # N fraction exactly at a decimal cut-off (not "more than"), for the lengths where a product or quotient in
+        # double arithmetic lands on the other side of the integer
+        boundary = rng.choice([(29, 50, "0.58"), (63, 90, "0.7"), (29, 100, "0.29"), (57, 100, "0.57"), (58, 100, "0.58"), (1, 5, "0.2"), (3, 10, "0.3")])
+        n0, L, _ = boundary
+        for j, cnt in enumerate([n0 - 1, n0, n0, n0 + 1]):
+            sl = [rng.choice("ACGT") for _ in range(L)]
+            for pos in rng.sample(range(L), cnt):
+                sl[pos] = rng.choice("NNn")
+            q = [30] * L
+            recs.append((f"b{j}", "".join(sl), "".join(chr(base + x) for x in q), q))
     thr = dict(ee=rng.choice(["0.01", "0.5", "1", "3"]), aer=rng.choice(["0.001", "0.01", "0.1", "0.3"]), n=rng.choice(["0", "1", "0.1", "0.5"]))[mode]
+    if boundary:
+        thr = boundary[2]
     d = os.path.join(ctx.scratch, f"cli{k}")
     os.makedirs(d, exist_ok=True)
     try:
